@@ -22,7 +22,7 @@ var fieldDomain = map[string]typeSet{
 }
 
 func init() {
-	register(&Rule{ID: "SCHEMA.field-guard", Floor: 10,
+	register(&Rule{ID: "SCHEMA.field-guard", Floor: 5,
 		Doc: "inside a libschema validator closure a field of the value under test (input.Str/.Int/.Float/.Cells) is read only where dominating tests have established a type for which that field is meaningful; an unguarded read decides on bytes that belong to another type (the string \"true\" passing as the boolean true, a map's always-empty Cells)",
 		Run: func(c *Ctx) []Obligation {
 			nv := c.LookupPkgFunc(schemaPkg + ".newValidator")
